@@ -19,7 +19,7 @@ PROPS = {
     "C11": grid_prop(25000, 800000, floors=dict(FAMS, **{"range-copy": 0.1, "src:pending": 0.015, "src:constructing": 0.05, "range:construction-continuation": 0.01})),
     "C14": grid_prop(30000, 1000000, hang_is_violation=True, floors={"state:E": 0.03, "state:F": 0.05, "state:L": 0.1, "state:P": 0.03, "state:C": 0.05, "state:Z": 0.03, "post:empty": 0.03}),
     "C12": dict(flavour="tsan", binary="vdrive_tsan", level="exploration", props_dir="props_tsan",
-                quick=dict(cases=4000, size=200, wall=900, case_budget=30), thorough=dict(cases=200000, size=300, wall=3000, case_budget=60),
+                quick=dict(cases=3000, size=200, wall=900, case_budget=30, shards=8), thorough=dict(cases=200000, size=300, wall=3000, case_budget=60),
                 floors=dict(FAMS, **{"wavelet-weight-queries": 0.03}),
                 assumptions=["ThreadSanitizer reports every data race between the executed calls (happens-before analysis; it does not depend on the actual interleaving)",
                              "deadlocks and lost wake-ups that need one specific interleaving are only reachable through the start jitter"]),
